@@ -2,7 +2,7 @@
    implementation model (DigitModel) and the specification oracles
    (DigitModelSpec).  ExtrOcamlBasic only. *)
 From Coq Require Import Extraction ExtrOcamlBasic NArith ZArith.
-From Qv Require Import DigitModel DigitModelSpec.
+From Qv Require Import DigitModel DigitModelSpec DigitProofsAccNeg.
 Extraction Language OCaml.
 Set Extraction Optimize.
 Extraction "model_digit.ml"
@@ -11,4 +11,4 @@ Extraction "model_digit.ml"
   DigitModel.roundtrip DigitModel.finfo_double DigitModel.finfo_float
   DigitModelSpec.c09_oracle DigitModelSpec.c10_real_oracle DigitModelSpec.c10_int_oracle
   DigitModelSpec.c10_reference DigitModelSpec.c11_double_oracle DigitModelSpec.c11_float_oracle
-  DigitModelSpec.fmt_double DigitModelSpec.fmt_float.
+  DigitModelSpec.fmt_double DigitModelSpec.fmt_float DigitProofsAccNeg.pnt_guard.
